@@ -62,6 +62,11 @@ func unmarshalBitfield(b []byte) (*bitset.BitSet, error) {
 	if err := bitfield.UnmarshalBinary(b); err != nil {
 		return nil, err
 	}
+	// The words are copied as they come: bits set at or beyond the length would be
+	// reported by NextSet / NextSetMany, which do not look at the length.
+	if i, ok := bitfield.NextSet(bitfield.Len()); ok {
+		return nil, fmt.Errorf("bitfield: bit %d set beyond its length %d", i, bitfield.Len())
+	}
 	return bitfield, nil
 }
 
